@@ -1048,7 +1048,8 @@ theorem parse_write_callable (ns : Str) (c : Callable) (x : Xml)
   cases hk : c.klass with
   | function =>
     rw [hk] at hvf hcb hsig
-    simp only [reduceCtorEq, false_or] at hvf hcb
+    simp only [reduceCtorEq, false_or, Bool.and_eq_true, Bool.not_eq_true', Option.isNone_iff_eq_none] at hvf hcb
+    obtain ⟨hcb, hanon⟩ := hcb
     simp only [reduceCtorEq, ↓reduceIte, Bool.and_eq_true, Bool.not_eq_true', Option.isNone_iff_eq_none] at hsig
     obtain ⟨⟨⟨⟨⟨s1, s2⟩, s3⟩, s4⟩, s5⟩, s6⟩ := hsig
     simp only [extraAttrs, callableTail, hk, List.cons_append, List.nil_append, List.append_nil, lookupSome, String.reduceEq,
@@ -1065,7 +1066,8 @@ theorem parse_write_callable (ns : Str) (c : Callable) (x : Xml)
       h1, h2, h3, h4, h5, h6, ite_self, reduceCtorEq, truthy_none, Bool.false_eq_true, s1, s2, s3, s4, s5, s6]
   | vfunction =>
     rw [hk] at hcb hfn hsig
-    simp only [reduceCtorEq, false_or] at hcb hfn
+    simp only [reduceCtorEq, false_or, Bool.and_eq_true, Bool.not_eq_true', Option.isNone_iff_eq_none] at hcb hfn
+    obtain ⟨hcb, hanon⟩ := hcb
     simp only [reduceCtorEq, ↓reduceIte, Bool.and_eq_true, Bool.not_eq_true', Option.isNone_iff_eq_none] at hsig
     obtain ⟨⟨⟨⟨⟨s1, s2⟩, s3⟩, s4⟩, s5⟩, s6⟩ := hsig
     obtain ⟨⟨⟨⟨⟨h1, h2⟩, h3⟩, h4⟩, h5⟩, h6⟩ := hfn
@@ -1074,7 +1076,8 @@ theorem parse_write_callable (ns : Str) (c : Callable) (x : Xml)
       h1, h2, h3, h4, h5, h6, ite_self, reduceCtorEq, truthy_none, Bool.false_eq_true, s1, s2, s3, s4, s5, s6]
   | signal =>
     rw [hk] at hvf hcb hfn hsig
-    simp only [reduceCtorEq, false_or] at hvf hcb hfn
+    simp only [reduceCtorEq, false_or, Bool.and_eq_true, Bool.not_eq_true', Option.isNone_iff_eq_none] at hvf hcb hfn
+    obtain ⟨hcb, hanon⟩ := hcb
     simp only [↓reduceIte, Bool.and_eq_true, Bool.not_eq_true', Option.isNone_iff_eq_none] at hsig
     obtain ⟨⟨⟨s1, s2⟩, s3⟩, s4⟩ := hsig
     obtain ⟨⟨⟨⟨⟨h1, h2⟩, h3⟩, h4⟩, h5⟩, h6⟩ := hfn
@@ -1211,7 +1214,7 @@ theorem write_canonCallable (ns : Str) (c : Callable) :
     unfold extraAttrs
     cases hk : c.klass <;> simp only [canonCallable, hk, keepTruthy_idem, truthy_keepTruthy]
     · by_cases h : truthy c.shadowedBy = true <;> simp [h, keepTruthy_idem]
-    · by_cases h : c.ctype = some c.name <;> simp [h]
+    · by_cases h : c.ctype = some c.name <;> cases c.anonymous <;> simp [h]
   have htail : callableTail (canonCallable c) = callableTail c := by
     unfold callableTail
     cases hk : c.klass <;> simp only [canonCallable, hk]
